@@ -241,7 +241,9 @@ def body(ctx, replay=None):
         cl = ((obj.get("cases") or [{}])[0].get("cls") or (obj.get("cases") or [{}])[0].get("mutation"))
         if cl and cl not in ent["classes"]:
             ent["classes"].append(cl)
-        if key in known_keys and rel(aspect):
+        # a genuine defect: VIOLATION unless its exact key is listed in known_findings.json (then KNOWN-FINDING).
+        # Aspect "C11" (crashes on malformed input) is reported only by the standalone unit run: C11 has its own harness.
+        if rel(aspect):
             ctx.violation(key, detail, obj, True)
 
     if replay:
@@ -286,7 +288,7 @@ def body(ctx, replay=None):
             if d["status"] != 0 or r["emb"] != 0:
                 # refusal: must be an error, not a crash; nothing was written (checked by the driver: intact)
                 if d["status"] == 99:
-                    potential("C01", "ps:digest-panic", "DigestPowershell panics (%s): the begin line is the first line or follows a line shorter than the stripped line end (class %s)" % (d.get("err"), c["cls"]), rp)
+                    potential("C11", "ps:digest-panic", "DigestPowershell panics (%s): the begin line is the first line or follows a line shorter than the stripped line end (class %s)" % (d.get("err"), c["cls"]), rp)
                 elif dom and d["status"] in (2,) and not rd["is16"]:
                     viol("C01", "ps:refused-wf", "a well-formed 8-bit script was refused: %s" % d.get("err"), rp)
                 elif d["status"] == 2 and rd["is16"] and len(cur) % 2 == 0:
@@ -343,7 +345,7 @@ def body(ctx, replay=None):
         if dom0 and (c["ver_f"] == -1) != (not rd0["signed"]) and c["ver_f"] in PS_OK_AFTER_EXTRACT + (-1,):
             viol("C08", "ps:is-signed-ne-spec", "NotSignedError does not coincide with the absence of CRLF + begin line", {"cases": [c]})
         if c["ver_f"] == 99:
-            potential("C01", "ps:verify-panic", "VerifyPowershell panics on class %s" % c["cls"], {"cases": [slim]})
+            potential("C11", "ps:verify-panic", "VerifyPowershell panics on class %s" % c["cls"], {"cases": [slim]})
 
     # ---- text conversion: RFC encoders against Go's (through the real digest)
     for t in TXT:
@@ -371,7 +373,7 @@ def body(ctx, replay=None):
             dom = deb_dom_py(cur, ok_ctl) and role_ok
             if r["status"] != 0 or r["emb"] != 0:
                 if r["status"] == 99:
-                    potential("C01", "deb:sign-panic", "signdeb.Sign panics (%s) on class %s" % (r.get("err"), c["cls"]), rp)
+                    potential("C11", "deb:sign-panic", "signdeb.Sign panics (%s) on class %s" % (r.get("err"), c["cls"]), rp)
                 elif dom:
                     viol("C01", "deb:refused-wf", "a well-formed package was refused: %s" % r.get("err"), rp)
                 break
@@ -412,7 +414,7 @@ def body(ctx, replay=None):
                 if len(role) > 12 and eo is not None and not any(e["name"] == b"_gpg" + role for e in eo):
                     potential("C08", "deb:long-role-truncated", "a role longer than 12 characters is stored under a truncated member name; signing again appends instead of replacing", rp)
                 if r["ver"] not in (0,) and not any(e for e in (eo or []) if e["name"].startswith(b"_gpg") and b"Hash" not in e["data"]):
-                    potential("C01", "deb:signed-but-unverifiable", "signing succeeds on class %s but signdeb.Verify then fails: %s" % (c["cls"], r.get("ver_err")), rp)
+                    potential("C11", "deb:signed-but-unverifiable", "signing succeeds on class %s but signdeb.Verify then fails: %s" % (c["cls"], r.get("ver_err")), rp)
             cur = out
 
     # ================================================================ mutations (C02)
@@ -650,7 +652,7 @@ def body(ctx, replay=None):
                     elif r["ver"] == 99 and exg[0] < 100:
                         # a panic after the member walk (checkSig's line splitting): outside the model, recorded
                         res["notes"].append("deb: signdeb.Verify panics after the member walk on class %s (%s)" % (c["cls"], r.get("ver_err")))
-                        potential("C01", "deb:verify-panic-after-sign", "signdeb.Sign succeeds and signdeb.Verify then panics in checkSig (%s) on class %s" % (r.get("ver_err"), c["cls"]), {"cases": [slim]})
+                        potential("C11", "deb:verify-panic-after-sign", "signdeb.Sign succeeds and signdeb.Verify then panics in checkSig (%s) on class %s" % (r.get("ver_err"), c["cls"]), {"cases": [slim]})
                 if bool(wf) != pd:
                     bad("deb:domain-definitions-differ", slim, [wf, pd])
                 ents = ar_read(fb)
